@@ -61,3 +61,15 @@ Lemma fixed_substring :
   key_holds (KHas JUNK) fl = false /\ key_holds (KHas SEEN) fl = false
   /\ unseen_count [mkLink 1 1 1 fl] 1 = 1 /\ first_unseen [mkLink 1 1 1 fl] 1 = Some 1.
 Proof. vm_compute. repeat split. Qed.
+
+(** flag names are case-insensitive (fix 06): "+FLAGS (\seen)" on \Seen adds
+    nothing, "-FLAGS (\seen)" removes \Seen, "\deleted" is expunged, "\seen"
+    counts as seen, \recent cannot be named, COPY adds no second \Recent *)
+Lemma fixed_flag_case :
+  calculate_new_flags [SEEN; S_ "kw"] [S_ "\seen"; S_ "KW"; S_ "\recent"] IT_ADD = [SEEN; S_ "kw"]
+  /\ calculate_new_flags [SEEN; S_ "kw"] [S_ "\seen"] IT_DEL = [S_ "kw"]
+  /\ calculate_new_flags [] [S_ "\Seen"; S_ "\seen"; S_ "\SEEN"] IT_FLAGS = [S_ "\Seen"]
+  /\ view (links (run env0 st0 [OAppend 1 [S_ "\deleted"]; OAppend 1 [S_ "\DeletedX"]; OExpunge false 1])) 1 = [(2, [S_ "\DeletedX"])]
+  /\ unseen_count [mkLink 1 1 1 [S_ "\seen"]; mkLink 2 1 2 [S_ "\Seenish"]] 1 = 1
+  /\ copy_flags [S_ "\recent"] = [S_ "\recent"].
+Proof. vm_compute. repeat split. Qed.
